@@ -250,3 +250,39 @@ Fixpoint unhex (s : string) : string :=
   | String a (String b r) => String (ascii_of_N (hexval a * 16 + hexval b)) (unhex r)
   | _ => EmptyString
   end.
+
+(* equality up to object member order; [strict] also compares the float/Decimal tag *)
+Definition num_same_rep (strict : bool) (a b : num) : bool :=
+  num_wire_eqb a b &&
+  (negb strict ||
+   match a, b with
+   | NDec _ _ k, NDec _ _ k' => fkind_eqb k k'
+   | _, _ => true
+   end).
+
+Fixpoint json_sameb (strict : bool) (a b : json) {struct a} : bool :=
+  match a, b with
+  | JNull, JNull => true
+  | JBool x, JBool y => Bool.eqb x y
+  | JNum x, JNum y => num_same_rep strict x y
+  | JStr x, JStr y => String.eqb x y
+  | JArr la, JArr lb =>
+      (fix go (la lb : list json) : bool :=
+         match la, lb with
+         | [], [] => true
+         | x :: ra, y :: rb => json_sameb strict x y && go ra rb
+         | _, _ => false
+         end) la lb
+  | JObj la, JObj lb =>
+      Nat.eqb (List.length la) (List.length lb) &&
+      (fix go (la : list (string * json)) : bool :=
+         match la with
+         | [] => true
+         | (k, x) :: ra =>
+             match assoc k lb with
+             | Some y => json_sameb strict x y && go ra
+             | None => false
+             end
+         end) la
+  | _, _ => false
+  end.
